@@ -1,7 +1,7 @@
 (* C15 — files changing during a run never corrupt the backup. *)
 From Coq Require Import List Arith NArith Lia Bool.
 Import ListNotations.
-Require Import FileReader AddFileDyn W_C15 FileReaderPrefix.
+Require Import FileReader AddFileDyn W_C15 FileReaderPrefix AddFileStable.
 Local Open Scope nat_scope.
 
 (* FileReader over an ARBITRARY underlying reader (any sequence of short reads, early EOF, data after EOF; the only
@@ -108,6 +108,25 @@ Example C15_example :
   | _ => False end.
 Proof. vm_compute. split; reflexivity. Qed.
 
+(* a file that does not change while it is read (both read passes deliver the same content c before their first end-of-file, with any
+   short reads, and the declared size is its length) gets a truthful record: size = |c|, hash = H c, and a unique entry is exactly c *)
+Theorem C15_stable_file_truthful : forall (hash : Type) (Hh : list N -> hash) (known : hash -> bool) (EMPTY : hash) sizes1 sizes2 sc1 sc2 c,
+  before_eof sc1 = c -> before_eof sc2 = c ->
+  match add_file (list sitem) srd (fun _ => sc2) (bz_of sizes1) (bz_of sizes2) hash Hh known EMPTY sc1 (length c) None with
+  | Unique _ h size entry => c <> [] /\ h = Hh c /\ size = length c /\ entry = c
+  | Extern _ h size => (c = [] /\ h = EMPTY /\ size = 0) \/ (c <> [] /\ h = Hh c /\ size = length c /\ known h = true)
+  | Abort _ => True
+  end.
+Proof. exact stable_file_truthful. Qed.
+Check C15_stable_file_truthful : forall (hash : Type) (Hh : list N -> hash) (known : hash -> bool) (EMPTY : hash) sizes1 sizes2 sc1 sc2 c,
+  before_eof sc1 = c -> before_eof sc2 = c ->
+  match add_file (list sitem) srd (fun _ => sc2) (bz_of sizes1) (bz_of sizes2) hash Hh known EMPTY sc1 (length c) None with
+  | Unique _ h size entry => c <> [] /\ h = Hh c /\ size = length c /\ entry = c
+  | Extern _ h size => (c = [] /\ h = EMPTY /\ size = 0) \/ (c <> [] /\ h = Hh c /\ size = length c /\ known h = true)
+  | Abort _ => True
+  end.
+
 Print Assumptions C15_file_reader_exact.
 Print Assumptions C15_unique_record_exact.
 Print Assumptions C15_extern_by_hash_exact.
+Print Assumptions C15_stable_file_truthful.
